@@ -87,7 +87,11 @@ func (p jpath) set(v any) {
 	p.parent.([]any)[p.idx] = v
 }
 
-var junk = []any{nil, true, 0, -1, 1.5, 1e308, 9223372036854775807.0, "", "x", []any{}, []any{"uuid"}, []any{"set"}, []any{"set", 1}, []any{"map"}, []any{"map", 1}, []any{"map", []any{1}}, []any{"map", []any{[]any{"k"}}}, []any{"named-uuid"}, []any{"uuid", 1}, []any{"set", []any{[]any{}}}, map[string]any{}, []any{[]any{}}, []any{1, 2, 3}, []any{"c", "==", nil}, []any{"c", 5, 1}, []any{"c"}}
+var junk = []any{nil, true, 0, -1, 1.5, 1e308, 9223372036854775807.0, "", "x", []any{}, []any{"uuid"}, []any{"set"}, []any{"set", 1}, []any{"map"}, []any{"map", 1}, []any{"map", []any{1}}, []any{"map", []any{[]any{"k"}}}, []any{"named-uuid"}, []any{"uuid", 1}, []any{"set", []any{[]any{}}}, map[string]any{}, []any{[]any{}}, []any{1, 2, 3}, []any{"c", "==", nil}, []any{"c", 5, 1}, []any{"c"},
+	// valid words in the wrong place: implicit columns, functions and mutators that do not fit the column type
+	"_version", "_uuid", "<", ">=", "includes", "excludes", "!=", "+=", "delete", "insert", "%=",
+	[]any{"named-uuid", 1}, []any{"uuid", nil}, []any{"uuid", []any{"x"}}, []any{"named-uuid", map[string]any{}}, []any{"uuid", "not-a-uuid"},
+	[]any{"_version", "==", []any{"uuid", "00000000-0000-4000-8000-000000000001"}}, []any{"_uuid", "<", 1}}
 
 // corrupt applies 1-2 structural corruptions to a deep copy of ops and says what it did.
 func corrupt(r *simrt.Rand, ops []Op) ([]any, string) {
